@@ -145,7 +145,7 @@ func OpenReadWriteFile(f *os.File, roots []cid.Cid, opts ...carv2.Option) (*Read
 	rwbs.ronly.idx = rwbs.idx
 
 	if resume {
-		if err = store.ResumableVersion(f, rwbs.opts.WriteAsCarV1); err != nil {
+		if err = store.ResumableVersion(f, rwbs.opts.WriteAsCarV1, opts...); err != nil {
 			return nil, err
 		}
 		if err = store.Resume(
